@@ -229,6 +229,11 @@ func (s IndexStep) Apply(val Value) (Value, error) {
 	// apply the correct marks for the result.
 	has, _ := val.HasIndex(s.Key).Unmark()
 	if !has.IsKnown() {
+		if val.Type().IsTupleType() {
+			// A tuple has no single element type: with an unknown key we
+			// cannot predict the result type at all.
+			return DynamicVal, nil
+		}
 		return UnknownVal(val.Type().ElementType()), nil
 	}
 	if !has.True() {
